@@ -94,15 +94,23 @@ def run(ctx: Ctx):
     rc.r_model_state(ctx, rt, "C07")
     r_refuse(ctx, rt)
     r_cast(ctx, rt)
-    # AIF rounds with the same constant
-    import ast
+    # AIF: every data loop of the exported document carries exactly one rounding, to the documented precision (read off the
+    # abstract CIF document - independent of how the writer spells its loops)
     wf = rt.model.func("pygaps.parsing.aif.isotherm_to_aif")
-    rounds = [ast.unparse(c.args[0]) for c in ast.walk(wf.node) if isinstance(c, ast.Call) and isinstance(c.func, ast.Attribute)
-              and c.func.attr == "round" and c.args]
-    ctx.ob(len(rounds) >= 2 and set(rounds) == {"_PARSER_PRECISION"},
-           Finding("C07.RT-precision", wf.where, f"aif|round:{sorted(set(rounds))}",
-                   f"isotherm_to_aif rounds its data loops with {rounds}; both loops must use _PARSER_PRECISION"),
-           nontrivial_key=("aif-round",))
+    rt.branch_pattern = "two"
+    loops = 0
+    for oc, cons, orig, iso, doc in rt.roundtrip("pygaps.parsing.aif.isotherm_to_aif", "pygaps.parsing.aif.isotherm_from_aif", "point", "abs-molar-K",
+                                                 "file", path_ext=".aif"):
+        if isinstance(doc, Obj) and doc.kind == "CifDoc":
+            for it in doc.attrs["block"].attrs["items"]:
+                if it[0] == "loop":
+                    loops += 1
+                    tg = tuple(t for t in it[1].attrs.get("value_tags", ()) if t[0] == "round")
+                    ctx.ob(tg == (("round", "8"),), Finding("C07.RT-precision", wf.where, f"aif|loop-rounding:{it[1].attrs['prefix']}:{tg}",
+                                                             f"the {it[1].attrs['prefix']} loop of the AIF document is written with rounding {tg or 'none'}; "
+                                                             "the documented precision is one rounding to 8 decimals"),
+                           nontrivial_key=("aif-round", it[1].attrs["prefix"]))
+    ctx.floor("AIF data loops inspected", loops, 2)
     prec = rt.I.global_value("pygaps.parsing", "_PARSER_PRECISION")
     ctx.ob(prec == 8, Finding("C07.RT-precision", "src/pygaps/parsing/__init__.py", f"_PARSER_PRECISION={rt.I.describe(prec)}",
                               "the documented precision of the tabular formats is 8 decimals"), nontrivial_key=("prec",))
